@@ -22,8 +22,7 @@ theorem goodFS_fresh {cfg : Cfg} {fs : FS Name} (hs : dlStatus cfg fs = none) (h
     (hd : ∀ d, dlData cfg fs = some d → d.length ≤ cfg.blob.length) : GoodFS cfg fs := by
   simp only [dlData, dlStatus, caData] at *
   exact ⟨(by intro b h; rw [hc] at h; cases h), (by intro ⟨_, h⟩; rw [hc] at h; cases h), hd,
-   (by intro st h; rw [hs] at h; cases h), (by intro d st _ h; rw [hs] at h; cases h),
-   (by intro h; rw [hs] at h; cases h)⟩
+   (by intro st h; rw [hs] at h; cases h), (by intro d st _ h; rw [hs] at h; cases h)⟩
 
 /-- replacing the status vector by one without a complete mark -/
 theorem goodFS_set_status {cfg : Cfg} {fs fs' : FS Name} (g : GoodFS cfg fs)
@@ -34,8 +33,7 @@ theorem goodFS_set_status {cfg : Cfg} {fs fs' : FS Name} (g : GoodFS cfg fs)
   simp only [dlData, dlStatus, caData] at *
   exact ⟨(by rw [hc]; exact g.cacheOK), (by rw [hd, hc]; exact g.one), (by rw [hd]; exact g.dlen),
    (by intro st h; rw [hs] at h; cases h; exact hlen),
-   (by intro d st _ h _ i _ hi; rw [hs] at h; cases h; exact absurd hi (hno i)),
-   (by intro _; rw [hd, hc]; exact hdata)⟩
+   (by intro d st _ h _ i _ hi; rw [hs] at h; cases h; exact absurd hi (hno i))⟩
 
 theorem zeros_no_one (n i : Nat) : (zeros n)[i]? ≠ some 1 := by
   simp only [zeros, List.getElem?_replicate]; split <;> simp
@@ -184,7 +182,7 @@ theorem goodFS_apply_statusReset {cfg : Cfg} {fs : FS Name} {c : Call Name} (h :
         rw [writeAt_zero_cover _ _ hle]
         exact ⟨Or.inr (by simp [zeros]), fun i hi => absurd hi (zeros_no_one _ _)⟩
   refine ⟨by rw [hc]; exact g.cacheOK, by rw [hd, hc]; exact g.one, by rw [hd]; exact g.dlen,
-    fun st' hst' => (key st' hst').1, ?_, by intro _; rw [hd, hc]; exact hdata⟩
+    fun st' hst' => (key st' hst').1, ?_⟩
   intro d st' hd' hst' _ i hi h1
   rw [hd] at hd'
   obtain ⟨st, hs, hl, h1'⟩ := (key st' hst').2 i h1
@@ -283,8 +281,7 @@ theorem goodFS_apply_chunk {cfg : Cfg} {i : Nat} {fs : FS Name} {c : Call Name} 
       · exact hc) g
   | some d =>
     rw [hdat] at hd; simp only [Option.map_some] at hd
-    refine ⟨by rw [hc]; exact g.cacheOK, by rw [hd, hc]; simpa [hdat] using g.one, ?_, by rw [hs]; exact g.stlen, ?_,
-      by rw [hs, hd, hc]; simpa [hdat] using g.stdata⟩
+    refine ⟨by rw [hc]; exact g.cacheOK, by rw [hd, hc]; simpa [hdat] using g.one, ?_, by rw [hs]; exact g.stlen, ?_⟩
     · intro d' hd'
       rw [hd] at hd'; cases hd'
       rw [length_writeAt]
@@ -342,8 +339,7 @@ theorem goodFS_apply_mark {cfg : Cfg} {i : Nat} {fs : FS Name} (g : GoodFS cfg f
     obtain ⟨hlen, hi⟩ := hst st hsf
     have hlen' : (writeAt st i [1]).length = numPieces cfg := by rw [length_writeAt]; simp; omega
     refine ⟨by rw [hc]; exact g.cacheOK, by rw [hd, hc]; exact g.one, by rw [hd]; exact g.dlen,
-      by intro st' h; rw [hs] at h; cases h; exact Or.inr hlen', ?_,
-      by intro _; rw [hd, hc]; exact g.stdata (by simp [hsf])⟩
+      by intro st' h; rw [hs] at h; cases h; exact Or.inr hlen', ?_⟩
     intro d st' hd' hst' _ i' hi' h1
     rw [hs] at hst'; cases hst'
     rw [hd] at hd'
@@ -371,7 +367,7 @@ theorem goodFS_apply_rename {cfg : Cfg} {fs : FS Name} (g : GoodFS cfg fs)
     obtain ⟨d, hdd⟩ := Option.isSome_iff_exists.mp hmv.1
     have hb := hd d hdd
     refine ⟨(by intro b h; rw [h1, hdd] at h; cases h; exact hb), (by rw [h2]; simp), (by intro d' h; rw [h2] at h; cases h),
-      (by rw [hs]; exact g.stlen), (by intro d' st h; rw [h2] at h; cases h), (by intro _; right; rw [h1, hdd]; rfl)⟩
+      (by rw [hs]; exact g.stlen), (by intro d' st h; rw [h2] at h; cases h)⟩
   · rw [if_neg hmv] at h1 h2
     exact goodFS_congr (by
       intro x hx
@@ -416,10 +412,148 @@ theorem goodFS_apply_dlRemoval {cfg : Cfg} {fs : FS Name} {c : Call Name} (h : D
       · right; exact file?_apply_of_not_written _ _ _ _ rfl (by simpa [Call.writes] using Ne.symm hn)
     · right; exact file?_apply_of_not_written _ _ _ _ rfl (by simp [Call.writes])
   refine ⟨(by rw [hc]; exact g.cacheOK), (by rw [hd']; simp), (by intro d h; rw [hd'] at h; cases h), ?_,
-    (by intro d st h; rw [hd'] at h; cases h), (by intro _; right; rw [hc]; exact hca)⟩
+    (by intro d st h; rw [hd'] at h; cases h)⟩
   intro st hst
   rcases hs' with e | e
   · rw [e] at hst; cases hst
   · rw [e] at hst; exact g.stlen st hst
+
+/-! ### removals -/
+
+/-- a tree in which each of the three files is as before or gone -/
+theorem goodFS_of_shrink {cfg : Cfg} {fs fs' : FS Name}
+    (h : ∀ x ∈ key3 cfg, fs'.file? x.1 x.2 = none ∨ fs'.file? x.1 x.2 = fs.file? x.1 x.2) (g : GoodFS cfg fs) : GoodFS cfg fs' := by
+  have h1 := h (entryDir cfg false, .data) (by simp [key3])
+  have h2 := h (entryDir cfg false, .status) (by simp [key3])
+  have h3 := h (entryDir cfg true, .data) (by simp [key3])
+  simp only at h1 h2 h3
+  refine ⟨?_, ?_, ?_, ?_, ?_⟩
+  · intro b hb
+    rcases h3 with e | e
+    · rw [e] at hb; cases hb
+    · rw [e] at hb; exact g.cacheOK b hb
+  · intro ⟨ha, hb⟩
+    apply g.one
+    constructor
+    · rcases h1 with e | e
+      · rw [e] at ha; cases ha
+      · rw [← e]; exact ha
+    · rcases h3 with e | e
+      · rw [e] at hb; cases hb
+      · rw [← e]; exact hb
+  · intro d hd
+    rcases h1 with e | e
+    · rw [e] at hd; cases hd
+    · rw [e] at hd; exact g.dlen d hd
+  · intro st hst
+    rcases h2 with e | e
+    · rw [e] at hst; cases hst
+    · rw [e] at hst; exact g.stlen st hst
+  · intro d st hd hst
+    rcases h1 with e | e
+    · rw [e] at hd; cases hd
+    · rcases h2 with e' | e'
+      · rw [e'] at hst; cases hst
+      · rw [e] at hd; rw [e'] at hst; exact g.pieces d st hd hst
+
+theorem goodFS_apply_removal {cfg : Cfg} {fs : FS Name} (g : GoodFS cfg fs) (c : Call Name)
+    (hc : (∃ p n, c = Call.unlink p n) ∨ (∃ p, c = Call.rmdir p)) : GoodFS cfg (apply fs c) := by
+  apply goodFS_of_shrink _ g
+  intro x _
+  rcases hc with ⟨p, n, rfl⟩ | ⟨p, rfl⟩
+  · by_cases e : x = (p, n)
+    · subst e; left; exact file?_apply_unlink _ _ _
+    · right; exact file?_apply_of_not_written _ _ _ _ rfl (by
+        simp only [Call.writes, List.mem_singleton]; intro e'; exact e (Prod.ext_iff.mpr (Prod.ext_iff.mp e')))
+  · right; exact file?_apply_of_not_written _ _ _ _ rfl (by simp [Call.writes])
+
+/-- calls that only remove things keep the invariant at every prefix -/
+theorem removal_prefix {cfg : Cfg} (cs : List (Call Name))
+    (hr : ∀ c ∈ cs, (∃ p n, c = Call.unlink p n) ∨ (∃ p, c = Call.rmdir p)) {fs : FS Name} (g : GoodFS cfg fs) :
+    ∀ k, GoodFS cfg (applyPrefix k cs fs) := by
+  induction cs generalizing fs with
+  | nil => intro k; simpa [applyPrefix] using g
+  | cons c cs ih =>
+    intro k
+    cases k with
+    | zero => simpa [applyPrefix] using g
+    | succ k =>
+      have : applyPrefix (k + 1) (c :: cs) fs = applyPrefix k cs (apply fs c) := by simp [applyPrefix]
+      rw [this]
+      exact ih (fun c' h => hr c' (List.mem_cons_of_mem _ h)) (goodFS_apply_removal g c (hr c (List.mem_cons_self ..))) k
+
+theorem removeAllPlan_removal (fs : FS Name) (o : Order Name) (p : Path) :
+    ∀ c ∈ removeAllPlan fs o p, (∃ q n, c = Call.unlink q n) ∨ (∃ q, c = Call.rmdir q) := by
+  intro c hc
+  unfold removeAllPlan at hc
+  split at hc
+  · simp at hc
+  · simp only [List.mem_append, List.mem_map, List.mem_singleton] at hc
+    rcases hc with ⟨x, _, rfl⟩ | rfl
+    · exact Or.inl ⟨p, x, rfl⟩
+    · exact Or.inr ⟨p, rfl⟩
+
+theorem leftoverPlan_removal (fs : FS Name) (dir : Path) :
+    ∀ c ∈ leftoverPlan fs dir, (∃ q n, c = Call.unlink q n) ∨ (∃ q, c = Call.rmdir q) := by
+  intro c hc
+  simp only [leftoverPlan, List.mem_map] at hc
+  obtain ⟨n, _, rfl⟩ := hc
+  exact Or.inl ⟨dir, n, rfl⟩
+
+theorem dir_isSome_unlink (fs : FS Name) (dir : Path) (n : Name) (p : Path) (h : (fs.dir? p).isSome = true) :
+    ((apply fs (Call.unlink dir n)).dir? p).isSome = true := by
+  unfold apply; split
+  · simp only [Call.eff]
+    split
+    · rename_i d hd
+      by_cases hp : p = dir
+      · subst hp; simp [FS.dir?_setDir_self]
+      · rw [FS.dir?_setDir_ne _ _ _ _ (Ne.symm hp)]; exact h
+    · exact h
+  · exact h
+
+/-- after the leftovers are removed no status vector is left; the blob files are untouched -/
+theorem leftoverPlan_result (fs : FS Name) (dir : Path) :
+    (applyAll fs (leftoverPlan fs dir)).file? dir Name.status = none ∧
+    (∀ p, (applyAll fs (leftoverPlan fs dir)).file? p Name.data = fs.file? p Name.data) ∧
+    (∀ p, (applyAll fs (leftoverPlan fs dir)).file? p Name.lat = fs.file? p Name.lat) ∧
+    (∀ p, ((fs.dir? p).isSome = true → ((applyAll fs (leftoverPlan fs dir)).dir? p).isSome = true)) := by
+  have hother : ∀ (cs : List Name) (fs' : FS Name) (p : Path) (x : Name), x ∉ cs →
+      (applyAll fs' (cs.map (Call.unlink dir))).file? p x = fs'.file? p x := by
+    intro cs fs' p x hx
+    apply file?_applyAll_of_not_written
+    intro c hc
+    simp only [List.mem_map] at hc
+    obtain ⟨n, hn, rfl⟩ := hc
+    exact ⟨rfl, by simp only [Call.writes, List.mem_singleton, Prod.mk.injEq, not_and]; intro _ e; exact hx (e ▸ hn)⟩
+  refine ⟨?_, fun p => hother _ _ _ _ (by simp), fun p => hother _ _ _ _ (by simp), ?_⟩
+  · unfold leftoverPlan
+    by_cases hs : (fs.file? dir Name.status).isSome = true
+    · by_cases ht : (fs.file? dir Name.tmeta).isSome = true
+      · simp only [List.filter, hs, ht, List.map, applyAll_cons, applyAll_nil]
+        rw [file?_apply_of_not_written _ _ _ _ rfl (by simp [Call.writes])]
+        exact file?_apply_unlink _ _ _
+      · simp only [List.filter, hs, ht, List.map, applyAll_cons, applyAll_nil]
+        exact file?_apply_unlink _ _ _
+    · have hsn : fs.file? dir Name.status = none := by
+        cases h : fs.file? dir Name.status with
+        | none => rfl
+        | some _ => rw [h] at hs; simp at hs
+      by_cases ht : (fs.file? dir Name.tmeta).isSome = true
+      · simp only [List.filter, hs, ht, List.map, applyAll_cons, applyAll_nil]
+        rw [file?_apply_of_not_written _ _ _ _ rfl (by simp [Call.writes])]; exact hsn
+      · simp only [List.filter, hs, ht, List.map, applyAll_nil]; exact hsn
+  · intro p hp
+    have : ∀ (cs : List Name) (fs' : FS Name), ((fs'.dir? p).isSome = true) →
+        ((applyAll fs' (cs.map (Call.unlink dir))).dir? p).isSome = true := by
+      intro cs
+      induction cs with
+      | nil => intro fs' h; exact h
+      | cons n cs ih =>
+        intro fs' h
+        simp only [List.map, applyAll_cons]
+        apply ih
+        exact dir_isSome_unlink fs' dir n p h
+    exact this _ fs hp
 
 end KrakenModel.AgentCrash
